@@ -522,6 +522,11 @@ IDENTITY_FUNCS = {"np.array", "np.asarray", "np.ravel", "np.copy", "float", "np.
 CONSTS = {"np.pi": sym("pi"), "numpy.pi": sym("pi"), "math.pi": sym("pi"), "pi": sym("pi")}
 
 
+_BINOPS = {"operator.add": lambda a, b: a + b, "operator.sub": lambda a, b: a - b, "operator.mul": lambda a, b: a * b,
+           "operator.truediv": lambda a, b: a / b, "operator.pow": lambda a, b: a ** b,
+           "operator.iadd": lambda a, b: a + b, "operator.imul": lambda a, b: a * b}
+
+
 class Interp:
     """Interprets expressions / straight-line bodies.  `env` maps local names to Rat
     (or to python bool/None for flags); `attr` maps 'self._x' to Rat; `call_hook`
@@ -539,6 +544,18 @@ class Interp:
     def fork(self):
         i = Interp(self.env, self.attr, self.call_hook, self.module, self.depth)
         return i
+
+    def _canon(self, dn):
+        """a name imported from the standard library (from functools import reduce as _reduce) under the library's own name"""
+        if dn is None or self.module is None:
+            return dn
+        root, _, rest = dn.partition(".")
+        if root in self.env:
+            return dn
+        tgt = getattr(self.module, "imports", {}).get(root)
+        if tgt and tgt.split(".")[0] in ("functools", "operator", "itertools", "math"):
+            return tgt + ("." + rest if rest else "")
+        return dn
 
     def _module_const(self, name):
         m = self.module
@@ -599,6 +616,9 @@ class Interp:
                 return v
             if self.module is not None and e.id in self.module.functions:
                 return ("fn", e.id)
+            cn = self._canon(e.id)
+            if cn != e.id:
+                return ("fn", cn)
             raise Undecided("unbound name %s" % e.id)
         if isinstance(e, ast.Attribute):
             dn = dotted(e)
@@ -635,9 +655,64 @@ class Interp:
             if isinstance(e.op, ast.Pow):
                 return a ** b
             raise Undecided("operator %s" % type(e.op).__name__)
+        if isinstance(e, ast.NamedExpr):
+            v = self.ev(e.value)
+            self.env[e.target.id] = v
+            return v
+        if isinstance(e, (ast.ListComp, ast.GeneratorExp)) and len(e.generators) == 1:
+            g = e.generators[0]
+            seq = self.ev(g.iter)
+            if not isinstance(seq, list):
+                raise Undecided("comprehension over %s" % norm(g.iter))
+            out = []
+            saved = dict(self.env)
+            for item in seq:
+                if isinstance(g.target, ast.Name):
+                    self.env[g.target.id] = item
+                elif isinstance(g.target, ast.Tuple) and isinstance(item, list) and len(item) == len(g.target.elts) and all(isinstance(t, ast.Name) for t in g.target.elts):
+                    for t, v in zip(g.target.elts, item):
+                        self.env[t.id] = v
+                else:
+                    raise Undecided("comprehension target %s" % norm(g.target))
+                conds = [self.test(c) for c in g.ifs]
+                if any(c is None for c in conds):
+                    raise Undecided("comprehension filter %s" % norm(g.ifs[0]))
+                if all(conds):
+                    out.append(self.ev(e.elt))
+            self.env = saved
+            return out
         if isinstance(e, ast.Call):
-            dn = dotted(e.func)
+            dn = self._canon(dotted(e.func))
             fv = None
+            if dn in _BINOPS and len(e.args) == 2 and not e.keywords:
+                return _BINOPS[dn](lift(self.ev(e.args[0])), lift(self.ev(e.args[1])))
+            if dn == "operator.neg" and len(e.args) == 1:
+                return -lift(self.ev(e.args[0]))
+            if dn == "functools.reduce" and len(e.args) in (2, 3) and not e.keywords:
+                fn = self.ev(e.args[0]) if not isinstance(e.args[0], ast.Lambda) else None
+                fdn = self._canon(fn[1]) if isinstance(fn, tuple) and len(fn) == 2 and fn[0] == "fn" else None
+                seq = self.ev(e.args[1])
+                if fdn in _BINOPS and isinstance(seq, list):
+                    seq = ([self.ev(e.args[2])] if len(e.args) == 3 else []) + seq
+                    if not seq:
+                        raise Undecided("reduce of an empty sequence")
+                    acc = lift(seq[0])
+                    for x in seq[1:]:
+                        acc = _BINOPS[fdn](acc, lift(x))
+                    return acc
+                raise Undecided("call %s" % norm(e)[:60])
+            if dn in ("any", "all") and len(e.args) == 1:
+                vals = self.ev(e.args[0])
+                if isinstance(vals, list) and all(isinstance(v, bool) for v in vals):
+                    return any(vals) if dn == "any" else all(vals)
+                raise Undecided("call %s" % norm(e)[:60])
+            if dn in ("sum", "math.fsum") and len(e.args) in (1, 2):
+                vals = self.ev(e.args[0])
+                if isinstance(vals, list):
+                    acc = lift(self.ev(e.args[1])) if len(e.args) == 2 else Rat.const(0)
+                    for v in vals:
+                        acc = acc + lift(v)
+                    return acc
             if isinstance(e.func, ast.Name) and isinstance(self.env.get(e.func.id), tuple):
                 fv = self.env[e.func.id]
             elif not isinstance(e.func, (ast.Name, ast.Attribute)):
@@ -744,6 +819,18 @@ class Interp:
         if isinstance(t, ast.UnaryOp) and isinstance(t.op, ast.Not):
             v = self.test(t.operand)
             return None if v is None else (not v)
+        if isinstance(t, ast.Call) and dotted(t.func) in ("any", "all", "bool") and len(t.args) == 1:
+            try:
+                v = self.ev(t)
+            except Undecided:
+                return None
+            return v if isinstance(v, bool) else None
+        if isinstance(t, ast.NamedExpr):
+            try:
+                v = self.ev(t)
+            except Undecided:
+                return None
+            return v if isinstance(v, bool) else (False if v is None else None)
         if isinstance(t, ast.BoolOp):
             vals = [self.test(v) for v in t.values]
             if isinstance(t.op, ast.And):
